@@ -117,6 +117,13 @@ def run(tier='quick'):
     G4 = chk.rule('G4', 'the util helpers that lift a conversion over std::optional between nullable columns and optional getter / setter values yield a value exactly when given one', floor=4)
     from .. import rowrules as _rr
     _rr.optional_lifts(prog, chk, G4)
+    G7 = chk.rule('G7', 'a value stored by a setter is stored whatever rows exist: every UPDATE of a 1.x secondary table '
+                        '(MetaData, MetaDataInteger, PerformanceData - rows that exist only if something wrote them) is '
+                        'preceded in its function by an INSERT [OR IGNORE / OR REPLACE] into that table or followed by a '
+                        'test of rows_modified(); otherwise set_x(v) after a cleared field / on a track without the row '
+                        'returns normally and the getter still reports nothing', floor=4)
+    from . import extra
+    extra.updates_have_rows(prog, cg, eff, chk, G7)
     return chk.finish('value-flow interpretation of the 60 track_impl virtuals of both implementations per '
                       'schema range (%d representative versions): per-field read / write location sets with '
                       'blob-member granularity, converter argument roles, written constants; row-scope and '
